@@ -599,6 +599,9 @@ def sess_chunk(cases):
                     bad = ('argument_changed', {'part': part, 'expected': want_w, 'observed': x['w']})
                 elif a['op'] == 'smudge':
                     bad = ('result_shared', {'part': part, 'expected': want_w, 'observed': x['w']})
+                elif a['op'] == 'set' and ('fr' if a['tgt'] == 'f' else 'heap') not in part:
+                    # the object written to reads as TLC says, another object changed with it: the two share their cells
+                    bad = ('result_shared', {'part': part, 'expected': want_w, 'observed': x['w']})
                 else:
                     raise Machinery('C13 driver: the caller\'s own step %r did not do what the specification says: %r' % (a, x['w']))
             if bad:
